@@ -5,7 +5,7 @@ PROP=$1; PATCH=$(readlink -f $2); shift 2
 WT=$(mktemp -d /tmp/wt-eval-XXXXXX)
 git -C /repo worktree add -f -q --detach $WT HEAD || exit 2
 cp /repo/config.h /repo/site_def.h $WT/; cp /repo/src/version.h $WT/src/ 2>/dev/null
-git -C $WT apply $PATCH || { echo "patch does not apply"; git -C /repo worktree remove --force $WT; exit 2; }
+git -C $WT apply $PATCH 2>/dev/null || patch -d $WT -p1 --fuzz=3 --no-backup-if-mismatch < $PATCH >/dev/null || { echo "patch does not apply"; git -C /repo worktree remove --force $WT; exit 2; }
 cd /verif
 VERIF_REPO=$WT VERIF_EVIDENCE_DIR=$WT/evidence VERIF_REPLAY_DIR=$WT/replays VERIF_NO_SMOKE=1 ./check $PROP --tier quick "$@" 2>&1 | grep -E "REFUTED|VIOLATION|UNCONFIRMED|INCONCLUSIVE|KNOWN|tier=.*instances=.*discharged" | cut -c1-260
 RC=${PIPESTATUS[0]}
